@@ -21,6 +21,8 @@ type ErrEntry struct {
 	Path  string `json:"path"`
 	Class string `json:"class"` // "resolver", "panic", "directive", "null", "coerce"
 	Msg   string `json:"msg,omitempty"`
+	// LeafElem: a null error for an element of a list of scalars / enums (Path ends in its index)
+	LeafElem bool `json:"leaf_elem,omitempty"`
 }
 
 type Result struct {
@@ -50,11 +52,21 @@ type Result struct {
 	ListLen map[string]int
 	// Elems: value positions that are elements of lists of composite type (key, response path)
 	Elems []ElemPos
+	// Values: positions below resolver results whose outcome a plan can override with nil
+	Values []ValuePos
 	// Fields: response path of every field executed (resolver or not; __typename excluded), sorted
 	Fields []string
 	// NullingKeys: object response path -> response keys of its non-null fields that completed to
 	// null (each of them nulls the object)
 	NullingKeys map[string][]string
+}
+
+// ValuePos is a value position that is not a resolver result: a field read from the parent object, or
+// a list element (of any type).
+type ValuePos struct {
+	Key     string
+	NonNull bool
+	Leaf    bool // scalar or enum
 }
 
 type ElemPos struct {
@@ -411,6 +423,11 @@ func (x *executor) field(obj *ast.Definition, objKey string, fd *ast.FieldDefini
 	for _, f := range fields {
 		sels = append(sels, f.SelectionSet)
 	}
+	if valueKey != fpath && fd.Type.Elem == nil {
+		if td := x.Schema.Types[fd.Type.Name()]; td != nil {
+			x.res.Values = append(x.res.Values, ValuePos{Key: valueKey, NonNull: fd.Type.NonNull, Leaf: td.IsLeafType()})
+		}
+	}
 	return x.complete(fd.Type, valueKey, fpath, sels)
 }
 
@@ -486,9 +503,17 @@ func (x *executor) complete(t *ast.Type, key, path string, sels []ast.SelectionS
 				x.res.Elems = append(x.res.Elems, ElemPos{Key: key + "[" + strconv.Itoa(i) + "]", Path: path + "[" + strconv.Itoa(i) + "]",
 					Abstract: ed.IsAbstractType(), NonNull: t.Elem.NonNull, ListLen: n})
 			}
+			if ed := x.Schema.Types[t.Elem.Name()]; ed != nil && t.Elem.Elem == nil {
+				x.res.Values = append(x.res.Values, ValuePos{Key: key + "[" + strconv.Itoa(i) + "]", NonNull: t.Elem.NonNull, Leaf: ed.IsLeafType()})
+			}
 			ev, isNull := x.complete(t.Elem, key+"["+strconv.Itoa(i)+"]", path+"["+strconv.Itoa(i)+"]", sels)
 			if isNull && t.Elem.NonNull {
 				listNull = true
+				if ed := x.Schema.Types[t.Elem.Name()]; ed != nil && t.Elem.Elem == nil && ed.IsLeafType() {
+					if n := len(x.res.Errors); n > 0 && x.res.Errors[n-1].Class == "null" && x.res.Errors[n-1].Path == path+"["+strconv.Itoa(i)+"]" {
+						x.res.Errors[n-1].LeafElem = true
+					}
+				}
 			}
 			arr.Arr = append(arr.Arr, ev)
 		}
